@@ -1,4 +1,5 @@
 import A816.Proofs.ExprMain
+import A816.Proofs.ExprClassify
 import A816.Gen.Tables
 /-!
 # C06 — Expressions evaluate to their conventional integer value
@@ -49,6 +50,28 @@ theorem C06_undefined_name (env : String → Option Int) (x : String) (h : env x
     evalTokens genPrec (lookOf env) [.term .identifier x] = .error (.symbolNotDefined x) := by
   simp [evalTokens, shuntingYard, syRun, syStep, evalRPN, rpnRun, applyNode, lookOf, h]
 
+/-- **C06 (classification)**: wherever the token stream continues with the printout of an expression tree and
+    then anything that is not an operator, `parse_expression` returns exactly the node list of that tree —
+    `-`/`~` in operand position as prefix operators, all others binary — and consumes exactly the printout.
+    The parser state before it (hence the context: operand, directive, definition, macro argument, condition,
+    loop bound) plays no part. -/
+theorem C06_classify (cfg : ParseCfg) (e : Expr) (fuel : Nat) (st : PState)
+    (hm : Classify.Matches st st.pos (printNodes e)) (hfuel : (printNodes e).length < fuel)
+    (hf : (st.toks.getD (st.pos + (printNodes e).length) eofTok).ty ≠ .OPERATOR) :
+    parseExpr cfg fuel st =
+      .ok (⟨printNodes e, st.toks.getD st.pos eofTok⟩, Classify.adv st (printNodes e).length) :=
+  Classify.parseExpr_print cfg e fuel st hm hfuel hf
+
+/-- **C06 (tokens to value)**: parsing the printout of a well-formed tree and evaluating what the parser
+    returned yields the tree's conventional value, in every parser state. -/
+theorem C06_parse_value (cfg : ParseCfg) (env : String → Option Int) (e : Expr) (wf : e.WF) (v : Int)
+    (hv : Spec.eval env e = some v) (fuel : Nat) (st : PState)
+    (hm : Classify.Matches st st.pos (printNodes e)) (hfuel : (printNodes e).length < fuel)
+    (hf : (st.toks.getD (st.pos + (printNodes e).length) eofTok).ty ≠ .OPERATOR) :
+    ∃ pe st', parseExpr cfg fuel st = .ok (pe, st') ∧ st'.pos = st.pos + (printNodes e).length ∧
+      evalTokens genPrec (lookOf env) pe.nodes = .ok v :=
+  ⟨_, _, C06_classify cfg e fuel st hm hfuel hf, rfl, C06_value env e wf v hv⟩
+
 /-! ## non-vacuity: concrete well-formed trees (checked by kernel evaluation through the real table) -/
 
 private def d (n : Nat) : Expr := .num ⟨.dec, [(n, false)]⟩
@@ -73,5 +96,19 @@ example : (evalTokens genPrec (lookOf env0) (printNodes (.bin .add (d 1) (.un .i
 example : (evalTokens genPrec (lookOf env0)
     (printNodes (.bin .mul (.var "a") (.paren (.bin .add (d 1) (d 2)))))).toOption = some 15 := by
   decide +kernel
+
+-- the hypotheses of `C06_classify` are met by a concrete token stream: `- 2 * ( a + 3 ) ,`
+private def tk (ty : TokTy) (v : String) : Tok := { eofTok with ty := ty, val := v }
+private def st0 : PState :=
+  { (default : PState) with
+    toks := #[tk .OPERATOR "-", tk .NUMBER "2", tk .OPERATOR "*", tk .LPAREN "(", tk .IDENTIFIER "a", tk .OPERATOR "+",
+             tk .NUMBER "3", tk .RPAREN ")", tk .COMMA ","], pos := 0 }
+private def e0 : Expr := .un .neg (.bin .mul (d 2) (.paren (.bin .add (.var "a") (d 3))))
+example : Classify.Matches st0 st0.pos (printNodes e0) := by
+  intro i hi
+  have hi' : i < 8 := hi
+  match i, hi' with
+  | 0, _ | 1, _ | 2, _ | 3, _ | 4, _ | 5, _ | 6, _ | 7, _ => decide +kernel +revert
+example : (st0.toks.getD (st0.pos + (printNodes e0).length) eofTok).ty ≠ .OPERATOR := by decide +kernel
 
 end A816.C06
